@@ -161,6 +161,7 @@ impl Gen {
                 max_advance: self.pick(&[1, 2, 4, 9]),
                 sweeper_pct: self.pick(&[5, 20, 60]),
                 sticky_pct: self.pick(&[0, 0, 50, 85]),
+                worker_pct: self.pick(&[100, 100, 30, 8]),
             },
             freq: Vec::new(),
             max_steps: 0,
@@ -199,6 +200,7 @@ pub struct Knobs {
     pub ttls: Vec<i64>,
     /// percent: after an operation that is not a read, read all of the caller's keys (the observation of C03)
     pub observe_pct: u32,
+    pub shards: Vec<usize>,
 }
 
 impl Default for Knobs {
@@ -209,7 +211,7 @@ impl Default for Knobs {
             mixw: [28, 22, 12, 26, 6, 3, 3], ttl_pct: 40, weight_pct: 60, pou_ttl_pct: 50,
             await_pcts: vec![0, 30, 70, 100], advance_pcts: vec![0, 3, 8, 15], max_advances: vec![1, 2, 4, 9],
             sweeper_pcts: vec![5, 20, 60], stall_sweeper_pct: 15, stall_consumer_pct: 20, sticky: vec![0, 0, 50, 85],
-            shutdown_pct: 0, heavy_pct: 5, freq_profile: false, final_reads: false, ttls: vec![1, 2, 3, 5, 8, 13], observe_pct: 0,
+            shutdown_pct: 0, heavy_pct: 5, freq_profile: false, final_reads: false, ttls: vec![1, 2, 3, 5, 8, 13], observe_pct: 0, shards: vec![2, 2, 4, 8],
         }
     }
 }
@@ -223,7 +225,7 @@ impl Gen {
             max_weight,
             counters: self.pick(&[1, 2, 3, 10, 64, 100]),
             capacity: 16,
-            shards: self.pick(&[2, 2, 4, 8]),
+            shards: self.pick(&kn.shards),
             qsize: self.pick(&kn.qsizes),
             pool: self.pick(&kn.pools),
             buffer: self.pick(&kn.buffers),
@@ -350,6 +352,7 @@ impl Gen {
                 max_advance: self.pick(&kn.max_advances),
                 sweeper_pct: self.pick(&kn.sweeper_pcts),
                 sticky_pct: self.pick(&kn.sticky),
+                worker_pct: self.pick(&[100, 100, 30, 8]),
             },
             freq,
             max_steps: 0,
@@ -364,7 +367,7 @@ pub fn knobs(profile: &str) -> Knobs {
         "ttl" => Knobs {
             callers: (1, 2), ops: (20, 50), keys: (2, 5), max_weights: vec![40, 200, 400], mixw: [30, 30, 8, 28, 2, 1, 1],
             ttl_pct: 80, pou_ttl_pct: 85, await_pcts: vec![70, 100, 100], advance_pcts: vec![15, 25, 35], max_advances: vec![1, 1, 2, 3],
-            sweeper_pcts: vec![60, 100], stall_sweeper_pct: 10, ttls: vec![1, 2, 3, 4, 6], heavy_pct: 0, ..d },
+            sweeper_pcts: vec![60, 100], stall_sweeper_pct: 10, ttls: vec![1, 2, 3, 4, 6], heavy_pct: 0, observe_pct: 40, shards: vec![2, 2, 2, 4], ..d },
         // memory pressure: small caches, many puts, frequency profiles
         "pressure" => Knobs {
             callers: (1, 3), ops: (20, 50), keys: (5, 12), max_weights: vec![4, 6, 9, 10, 15], mixw: [50, 12, 6, 26, 3, 3, 0],
@@ -373,11 +376,11 @@ pub fn knobs(profile: &str) -> Knobs {
         "seq" => Knobs {
             callers: (1, 3), ops: (25, 55), keys: (2, 3), shared_keys: false, max_weights: vec![400, 1000], mixw: [20, 22, 6, 50, 2, 0, 0],
             ttl_pct: 50, await_pcts: vec![100], advance_pcts: vec![5, 15, 25], max_advances: vec![1, 2, 3], sweeper_pcts: vec![40, 100],
-            heavy_pct: 0, ttls: vec![2, 3, 5, 8], observe_pct: 80, ..d },
+            heavy_pct: 0, ttls: vec![2, 3, 4, 6, 8], observe_pct: 80, shards: vec![2, 2, 2, 4], ..d },
         // unawaited bursts on shared keys through tiny queues (C05, C11, C04)
         "burst" => Knobs {
             callers: (1, 3), ops: (12, 30), keys: (1, 3), qsizes: vec![1, 1, 2, 3], mixw: [42, 14, 24, 18, 2, 0, 0], ttl_pct: 15,
-            await_pcts: vec![0, 0, 20], advance_pcts: vec![0, 3], final_reads: true, max_weights: vec![6, 10, 50], ..d },
+            await_pcts: vec![0, 0, 20], advance_pcts: vec![0, 3], final_reads: true, max_weights: vec![6, 10, 50], observe_pct: 60, ..d },
         // shutdown in the middle of traffic (C13)
         "shutdown" => Knobs {
             callers: (2, 3), ops: (8, 24), keys: (2, 4), qsizes: vec![1, 1, 2, 4], shutdown_pct: 70, await_pcts: vec![0, 30, 70],
@@ -443,10 +446,17 @@ pub fn generate(profile: &str, seed: u64, count: usize) -> Vec<Scenario> {
                 kn.callers = (1, 1); kn.ops = (0, 0);
                 let mut sc = gen.history(&name, &kn);
                 sc.cfg.max_weight = gen.pick(&[8, 10, 12, 15, 20, 30]);
-                sc.freq = Vec::new();
                 let light = gen.pick(&[1, 1, 2]);
                 let mut program: Vec<Op> = Vec::new();
                 let count = sc.cfg.max_weight / light;
+                // half of the runs with a frequency profile: some resident keys are hot, the incoming heavy keys vary
+                sc.freq = if gen.rng.gen_bool(0.6) {
+                    let mut freq: Vec<(i64, usize)> = Vec::new();
+                    for key in 0..count { freq.push((key, gen.pick(&[0usize, 0, 1, 2, 3, 7]))); }
+                    for key in 100..106 { freq.push((key, gen.pick(&[0usize, 1, 4, 9]))); }
+                    freq
+                } else { Vec::new() };
+                sc.cfg.counters = gen.pick(&[64, 100]);
                 for key in 0..count {
                     let mut put = op("put"); put.k = key; put.v = gen.value(); put.w = light;
                     program.push(put);
